@@ -227,6 +227,9 @@ func genNas(r *rand.Rand, d *nasdesc.Msg, mask uint64, lenOf func(mem nasdesc.Me
 		}
 		fillMember(r, f, mem, n)
 	}
+	if lenOf == nil && r.Intn(8) == 0 {
+		sameContent(r, nv)
+	}
 	// header octets
 	epd := uint64(0x7e)
 	if d.Gsm {
@@ -243,6 +246,67 @@ func genNas(r *rand.Rand, d *nasdesc.Msg, mask uint64, lenOf func(mem nasdesc.Me
 		setOctet(3, uint64(d.MsgType))
 	}
 	return nv
+}
+
+// sameContent gives two length-carrying members of one message the SAME content (a UE that names one identity twice,
+// a container that repeats a sibling): half of the time as long as the smaller of the two can hold, so that a
+// fixed-size representation is filled to its last octet. To the codec the members stay independent of each other.
+func sameContent(r *rand.Rand, nv *nasValue) {
+	v := nv.Msg.Elem()
+	var ms []reflect.Value
+	for i, mem := range nv.Desc.Members {
+		if !nv.Present[i] {
+			continue
+		}
+		f := v.Field(mem.Index)
+		if f.Kind() == reflect.Ptr {
+			f = f.Elem()
+		}
+		_, ln, octet, buffer := memberFields(f.Type())
+		if ln >= 0 && (buffer >= 0 || octet >= 0 && f.Type().Field(octet).Type.Kind() == reflect.Array) {
+			ms = append(ms, f)
+		}
+	}
+	if len(ms) < 2 {
+		return
+	}
+	i := r.Intn(len(ms))
+	j := (i + 1 + r.Intn(len(ms)-1)) % len(ms)
+	if r.Intn(2) == 0 { // a member with a fixed-size representation and the first (as a rule mandatory) member
+		var fixed []int
+		for k, f := range ms {
+			if _, _, _, buffer := memberFields(f.Type()); buffer < 0 && k > 0 {
+				fixed = append(fixed, k)
+			}
+		}
+		if len(fixed) > 0 {
+			i, j = fixed[r.Intn(len(fixed))], 0
+		}
+	}
+	n := minInt(memberCapacity(ms[i].Type()), memberCapacity(ms[j].Type()))
+	if n > 600 {
+		n = 600
+	}
+	if r.Intn(2) == 0 {
+		n = r.Intn(n + 1)
+	}
+	b := fillBytes(r, n)
+	for _, f := range []reflect.Value{ms[i], ms[j]} {
+		_, ln, octet, buffer := memberFields(f.Type())
+		f.Field(ln).SetUint(uint64(n))
+		if buffer >= 0 {
+			f.Field(buffer).SetBytes(append([]byte(nil), b...))
+		} else {
+			of := f.Field(octet)
+			for k := 0; k < of.Len(); k++ {
+				x := byte(0)
+				if k < n {
+					x = b[k]
+				}
+				of.Index(k).SetUint(uint64(x))
+			}
+		}
+	}
 }
 
 // wrap puts the message struct into a nas.Message with a consistent header.
